@@ -23,10 +23,16 @@ func (in *Interp) liveThreads() int {
 func (in *Interp) visible(th *Thread, f *Frame, desc string, enabled func() bool) bool {
 	if th.granted {
 		th.granted = false
+		if desc != "send-handoff" {
+			in.schedTrace = append(in.schedTrace, th.id)
+		}
 		return true
 	}
 	if th.id < 0 || in.liveThreads() <= 1 {
 		if enabled == nil || enabled() {
+			if th.id >= 0 && desc != "send-handoff" {
+				in.schedTrace = append(in.schedTrace, th.id)
+			}
 			return true
 		}
 		if th.id < 0 {
@@ -81,6 +87,12 @@ func (in *Interp) schedule() *Thread {
 	t.atVisible = false
 	t.granted = true
 	t.enabled = nil
+	if t.opDesc == "start" {
+		// a new thread is released: recorded as its own event, the first instruction is not a visible operation
+		in.schedTrace = append(in.schedTrace, t.id)
+		t.granted = false
+		t.opDesc = ""
+	}
 	return t
 }
 
